@@ -1,0 +1,7 @@
+//go:build !verif
+
+package slug
+
+import "archive/tar"
+
+func verifEntryBoundary(dst string, header *tar.Header) {}
